@@ -168,6 +168,23 @@ FIXED = [
     'def e { if a === 1 { return "x" weighted 1 } }',
     'def e { if a == 1 { return "x" weighted 1 } else if { return "y" weighted 1 } }',
     'def e { return "x" weighted 1 } /',
+    'def e { if a in ( 1 , 2 , ) { return "x" weighted 1 } }',
+    'def e { if a in (1,) { return "x" weighted 1 } }',
+    'def e { if a in ( , 1 ) { return "x" weighted 1 } }',
+    'def e { if a in ( 1 , , 2 ) { return "x" weighted 1 } }',
+    'def e { splitters : a , b , return "x" weighted 1 }',
+    'def e { splitters : , a return "x" weighted 1 }',
+    'def e { return "x" weighted 1 , , "y" weighted 1 }',
+    'def e { return , "x" weighted 1 }',
+    'def e { if a == 1 , { return "x" weighted 1 } }',
+    'def e { if a == 18. { return "x" weighted 1 } }',
+    'def e { return "x" weighted 1. }',
+    'def e { return 7. weighted 1 }',
+    'def e { return "x" weighted 1.5.2 }',
+    'def e { return "x" weighted 1e3 }',
+    'def e { return 1e3 weighted 1 }',
+    'def e { return 0x10 weighted 1 }',
+    'def e { return "x" weighted 1_000 }',
     'def e { if a == - - 1 { return "x" weighted 1 } }',
     'def e { if a == --1 { return "x" weighted 1 } }',
     'def e { return - - 1 weighted 1 }',
